@@ -19,4 +19,13 @@ def bounded(ctx):
     c01.sweeps(ctx)
     c01.byte_inputs(ctx)
     c01.fetchers(ctx)
+    c01.contexts(ctx)
+    c01.colour_functions(ctx)
+    c01.at_keyword_positions(ctx)
+    c01.charsets(ctx)
     c01.witnesses(ctx)
+
+
+# T1 (PyVC): the switch that turns errors into log lines - _ErrorHandler.__handle never raises unless raising mode is on (for every
+# token shape and error class passed by the library) - and the parse entry points' handling of that mode on every exit.
+T1 = [('contracts.errorhandler', None), ('contracts.parse', None)]
